@@ -12,6 +12,7 @@ from jax2onnx._compat.jax import (
 )
 import jax.numpy as jnp
 import numpy as np
+import onnx_ir as ir
 
 from jax2onnx.converter.typing_support import LoweringContextProtocol
 from jax2onnx.plugins._patching import AssignSpec, MonkeyPatchSpec
@@ -27,6 +28,24 @@ from jax2onnx.plugins.plugin_system import PrimitiveLeafPlugin, register_primiti
 
 
 _MAXIMUM_PRIM: Final = make_jnp_primitive("jax.numpy.maximum")
+
+
+def _cast_operand(
+    ctx: LoweringContextProtocol, val: ir.Value, like: ir.Value, name_hint: str
+) -> ir.Value:
+    want = getattr(getattr(like, "type", None), "dtype", None)
+    have = getattr(getattr(val, "type", None), "dtype", None)
+    if want is None or have is None or want == have:
+        return val
+    cast_val = cast(
+        ir.Value,
+        ctx.builder.Cast(
+            val, to=int(want.value), _outputs=[ctx.fresh_name(name_hint)]
+        ),
+    )
+    cast_val.type = ir.TensorType(want)
+    cast_val.shape = getattr(val, "shape", None)
+    return cast_val
 
 
 @register_primitive(
@@ -61,27 +80,34 @@ class JnpMaximumPlugin(PrimitiveLeafPlugin):
     @staticmethod
     def abstract_eval(x: AbstractValue, y: AbstractValue) -> ShapedArray:
         out_shape = tuple(jnp.broadcast_shapes(x.shape, y.shape))
-        out_dtype = np.promote_types(x.dtype, y.dtype)
+        # JAX's lattice (weak Python scalars, 64-bit mode), not NumPy's value-based one
+        out_dtype = np.dtype(jnp.result_type(x, y))
         return ShapedArray(out_shape, out_dtype)
 
     def lower(self, ctx: LoweringContextProtocol, eqn: JaxprEqn) -> None:
         lhs_var, rhs_var = eqn.invars
         out_var = eqn.outvars[0]
 
-        lhs_val = ctx.get_value_for_var(
-            lhs_var, name_hint=ctx.fresh_name("maximum_lhs")
+        # operands of different types are promoted by JAX: both sides are brought to the
+        # result type (a Python scalar next to an integer tensor must not be truncated)
+        out_dtype: np.dtype[Any] = np.dtype(
+            getattr(out_var.aval, "dtype", getattr(lhs_var.aval, "dtype", np.float32))
         )
-        prefer_dtype: np.dtype[Any] = np.dtype(
-            getattr(lhs_var.aval, "dtype", np.float32)
+        lhs_val = ctx.get_value_for_var(
+            lhs_var,
+            name_hint=ctx.fresh_name("maximum_lhs"),
+            prefer_np_dtype=out_dtype,
         )
         rhs_val = ctx.get_value_for_var(
             rhs_var,
             name_hint=ctx.fresh_name("maximum_rhs"),
-            prefer_np_dtype=prefer_dtype,
+            prefer_np_dtype=out_dtype,
         )
         out_spec = ctx.get_value_for_var(
             out_var, name_hint=ctx.fresh_name("maximum_out")
         )
+        lhs_val = _cast_operand(ctx, lhs_val, out_spec, "maximum_lhs_cast")
+        rhs_val = _cast_operand(ctx, rhs_val, out_spec, "maximum_rhs_cast")
 
         desired_name = getattr(out_spec, "name", None) or ctx.fresh_name("maximum_out")
         producer = getattr(out_spec, "producer", lambda: None)
